@@ -3,6 +3,7 @@
 #![allow(dead_code)]
 
 mod ctl;
+mod gmworld;
 mod json;
 mod rng;
 mod scen;
